@@ -89,6 +89,14 @@ def _corrupt(R: Draw, g, rs, node: dict) -> dict:  # noqa: ANN001
 def generate(R: Draw, tier: str) -> dict:
     sref = schemas.pick_schema(R, ZOO_NAMES, p_random=0.35)
     lib, rs = schemas.get(sref)
+    pre = None
+    if R.bool(0.2):
+        # judge a TWIN of the schema (same names, other group membership) that is built after the original in the
+        # same process
+        twin = schemas.twin_spec(R, schemas.spec_of(sref))
+        if twin is not None:
+            pre, sref = sref, twin
+            lib, rs = schemas.get(sref)
     g = docgen(rs)
     doc = g.doc(R, "small")
     node = _pick_node(R, doc, want_kids=R.bool(0.85))
@@ -105,7 +113,7 @@ def generate(R: Draw, tier: str) -> dict:
     if rs.mark_names and R.bool(0.3):
         marks = [g.mark(R, R.choice(rs.mark_names))]
     bad = _corrupt(R, g, rs, node if R.bool(0.7) else doc)
-    return {"schema": sref, "node": node, "repl": repl, "other": other, "marks": marks, "bad": bad}
+    return {"schema": sref, "pre": pre, "node": node, "repl": repl, "other": other, "marks": marks, "bad": bad}
 
 
 def _types(children: list) -> list[str]:
@@ -117,6 +125,9 @@ def _marks_allowed(rs, parent: str, children: list) -> bool:  # noqa: ANN001
 
 
 def check(case: dict, ctx: Ctx) -> None:
+    if case.get("pre") is not None:
+        schemas.get(case["pre"])  # the original schema exists first, the twin under test is built second
+        ctx.label("schema:twin-built-after-original")
     lib, rs = schemas.get(case["schema"])
     node_p = case["node"]
     assert V.valid(rs, node_p), V.node_problems(rs, node_p)
